@@ -228,6 +228,41 @@ let run_case (line:str) : str =
       Printf.sprintf "%d:%s" (Buffer.length buf) (Digest.to_hex (Digest.string (Buffer.contents buf))) in
     dg (fs_get ap s) ^ " " ^ dg (fs_get tp s)
   | "kill" -> "safe"
+  | "multirange" ->
+    let base = tn ts in let maxb = tn ts in let n = ti ts in
+    let rs = L.init n (fun _ -> let s = tn ts in let l = tn ts in { c_src = s; c_dst = s; c_len = l }) in
+    let out = multi_ranges base maxb rs in
+    let str b = let buf = Buffer.create 64 in L.iter (fun x -> Buffer.add_char buf (Char.chr (int_of_n x))) b; Buffer.contents buf in
+    S.concat " " (string_of_int (L.length out) :: L.concat_map (fun (s, rs) -> [str s; string_of_int (L.length rs)]) out)
+  | "sync" ->
+    let bskb = tn ts in let dry = ti ts = 1 in let _ = ti ts in let fault = tok ts in
+    let ldoff = tn ts in let rmoff = tn ts in let rmlen = tn ts in let rloff = tn ts in let rllen = tn ts in let rdoff = tn ts in
+    let esa = tents ts in let esb = tents ts in
+    let afile = bytes_of_hex (tok ts) in let bfile = bytes_of_hex (tok ts) in
+    if fault <> "none" then "safe" else
+    let str b = let buf = Buffer.create 64 in L.iter (fun x -> Buffer.add_char buf (Char.chr (int_of_n x))) b; Buffer.contents buf in
+    let dg b = let s = str b in Printf.sprintf "%d:%s" (S.length s) (Digest.to_hex (Digest.string s)) in
+    let hash b = n_of_int (int_of_string ("0x" ^ S.sub (Digest.to_hex (Digest.string (str b))) 0 15)) in
+    let rec drop k l = if k = 0 then l else (match l with [] -> [] | _ :: r -> drop (k - 1) r) in
+    let rdata = drop (int_of_n rdoff) bfile in
+    (match makesync_blocks (N.mul (n_of_int 1000) bskb) esb with
+     | MSPanic -> "died"
+     | MSOk bl ->
+       let blocks = sync_entries hash rdata bl in
+       let rh = { s_meta_off = rmoff; s_meta_len = rmlen; s_leaf_off = rloff; s_leaf_len = rllen; s_data_off = rdoff } in
+       let o = sync hash dry afile ldoff esa bfile rh blocks in
+       let after = match o.so_file with None -> afile | Some f -> f in
+       let rng a l = Printf.sprintf "GET:bytes=%s-%s" (string_of_n a) (string_of_n (N.sub (N.add a l) (n_of_int 1))) in
+       let fixed = if dry then [] else
+           ["HEAD:"; "GET:bytes=0-16383"] @ (if int_of_n rmlen > 0 then [rng rmoff rmlen] else []) @ (if int_of_n rllen > 0 then [rng rloff rllen] else []) in
+       let multi = if dry then [] else L.map (fun (s, _) -> "GET:bytes=" ^ str s) (multi_ranges rdoff (n_of_int 1048376) o.so_wanted) in
+       (* the harness sorts everything after the fifth request *)
+       let all = "SYNCFILE" :: fixed @ multi in
+       let rec split k l = if k = 0 then ([], l) else (match l with [] -> ([], []) | x :: r -> let (a, b) = split (k - 1) r in (x :: a, b)) in
+       let (hd, tl) = split 5 all in
+       let all = hd @ L.sort compare tl in
+       S.concat " " (["ok"; dg after; "tmp=0"; "blocks"; string_of_int (L.length bl)] @ L.concat_map (fun b -> [string_of_n b.b_start; string_of_n b.b_len]) bl
+                     @ ["reqs"; S.concat "|" all]))
   | "note" -> "-"
   | "verify" ->
     let _expect = tok ts in let fsize = z_of_string (tok ts) in
